@@ -14,7 +14,7 @@
 // encoding-indexed positions == string splice at the character boundary, get / marks / cursors in the
 // same unit, concat(spans) == text.
 use crate::gen;
-use crate::model::{coq_actor, coq_change, coq_objid, coq_objtype, coq_op, coq_scalar, coq_str, object_ids};
+use crate::model::{coq_actor, coq_objid, coq_objtype, coq_op, coq_scalar, coq_str, object_ids};
 use crate::util::*;
 use automerge::marks::{ExpandMark, Mark};
 use automerge::transaction::Transactable;
@@ -253,6 +253,13 @@ fn coq_enc(enc: TextEncoding) -> &'static str {
         TextEncoding::Utf16CodeUnit => "EncU16",
         TextEncoding::GraphemeCluster => "EncCP",
     }
+}
+
+/// a change as a model literal with its hash replaced by a small number: the checker uses the ops, actor and
+/// start_op only, and 256-bit literals are slow to parse
+fn coq_change_small(c: &Change, idx: usize) -> String {
+    let e = c.decode();
+    format!("(mkChange {} {} {} {} [] {})", idx + 1, coq_actor(&e.actor_id), e.seq, e.start_op.get(), coq_ops_of(c))
 }
 
 fn coq_ops_of(c: &Change) -> String {
@@ -1055,7 +1062,7 @@ fn program(rng: &mut Rng, rep: &mut Report, pi: usize, enc: TextEncoding, manual
                 Some(n) => n.clone(),
                 None => {
                     let n = format!("ch{}", def_names.len());
-                    defs.push(format!("Definition {} : change := {}.", n, coq_change(c)));
+                    defs.push(format!("Definition {} : change := {}.", n, coq_change_small(c, def_names.len())));
                     def_names.insert(key, n.clone());
                     n
                 }
@@ -1354,10 +1361,10 @@ pub fn run(rng: &mut Rng, tier: &str, out: &str) -> Report {
         let r = guard(|| program(&mut prng, &mut rep, pi, enc, manual, direct_only, focus, thorough));
         match r {
             Ok((defs, cases)) => {
-                // one shard per 5 transactions of a program (shards are evaluated in parallel)
+                // one shard per 8 transactions of a program (shards are evaluated in parallel)
                 let mut cases = cases;
                 while !cases.is_empty() {
-                    let rest = if cases.len() > 5 { cases.split_off(5) } else { vec![] };
+                    let rest = if cases.len() > 8 { cases.split_off(8) } else { vec![] };
                     cw.push_group(&defs, cases);
                     cases = rest;
                 }
